@@ -38,6 +38,9 @@ void vp_split_u64(u64 b, u64 e, u64 g, i64* o) { split1<u64>(b, e, g, o); }
 void vp_split_i32(int b, int e, u64 g, i64* o) { split1<int>(b, e, g, o); }
 void vp_psplit_u64(u64 b, u64 e, u64 g, u64 l, u64 r, i64* o) { psplit1<u64>(b, e, g, l, r, o); }
 void vp_psplit_i32(int b, int e, u64 g, u64 l, u64 r, i64* o) { psplit1<int>(b, e, g, l, r, o); }
+int vp_div_i64(i64 b, i64 e, u64 g) { return blocked_range<i64>(b, e, g).is_divisible(); }
+void vp_split_i64(i64 b, i64 e, u64 g, i64* o) { split1<i64>(b, e, g, o); }
+void vp_psplit_i64(i64 b, i64 e, u64 g, u64 l, u64 r, i64* o) { psplit1<i64>(b, e, g, l, r, o); }
 }
 
 // ---- 2-d / 3-d / n-d ---------------------------------------------------------------------------
